@@ -53,7 +53,7 @@ TEXT = {
  "fault_enumeration": "Runtime monitoring with enumerated fault/crash points: each single fault site of the exercised histories is injected in turn and the recovered system is audited by the oracle; exhaustive per history, sampled over histories.",
 }
 
-NOT_READY = set(sys.argv[1:])
+READY = set(open(os.path.join(ROOT, "tools", "ready.txt")).read().split())
 
 def main():
     hooks_commits = []
@@ -69,7 +69,7 @@ def main():
     checks, na = [], []
     for pid, (level, engine, technique, note) in CHECKS.items():
         d = os.path.join(ROOT, "harness", "cmd", pid.lower())
-        if not os.path.isdir(d) or pid in NOT_READY:
+        if not os.path.isdir(d) or pid not in READY:
             na.append({"property_id": pid, "reason": "check not built yet (work in progress; the design in DESIGN.md section 5 applies)"})
             continue
         checks.append({
